@@ -71,9 +71,9 @@ CLAIMED = {
    "`./check C16` runs two parts side by side: the stepping part (evidence C16.json) and the threaded part (evidence C16-loom.json: the real commit and cleanup workers under loom on a backlog of 3 flushed log files, every file operation from the j-th of the threaded phase on fails, one exploration per j; all threads must terminate, a later commit returns, reads stay correct, reopen shows all synced commits). Failures are persistent (as quantified). A power loss following an I/O failure is combined under C12. The index-growth scenario follows one pipeline order and caps the crate's own injector at its first 10 (quick) / 48 (thorough) sites per step (its sites include every in-memory read of the reindex scan); the syscall injector is never capped.",
    "DESIGN.md §3 E2 family 5, §4 C16"),
  "C09": ("seqmc+crashmc", "model_checking",
-   "explicit-state breadth-first search over the real Db with adversarial key families (identity hashing) and reindex batches as events; crash-point enumeration over growth edges",
+   "explicit-state breadth-first search over the real Db with adversarial key families (identity hashing) and reindex batches as events (one batch per growth, and a growth split into four batches by hook H10); crash-point enumeration over growth edges; loom exploration (preemption-bounded DPOR) of reader threads against a pipeline thread completing a migration, and of the real workers carrying a growth through",
    "From a state with one full 64-entry index page: commits that overflow it (growth 16->17 bits), remove/replace keys still in the old index, build and edit a 3-key collision chain equal in every index-visible bit, overflow the new index's page (second growth from a reindex batch), interleaved with every stage event incl. reindex batches, and reopen; every key ever written is read after every event. Crash scenarios put a crash point at every file operation of every edge of a growth (new index creation, batch records, DropTable, unlink of the old file) with the C02 oracle.",
-   "Bounds per scenario (quick: one commit after the fill; thorough: up to three, growth+crash with a following commit, power loss). `./check C09` runs two parts side by side: the stepping part (evidence C09.json) and the threaded part (evidence C09-loom.json: growth in progress, reader thread(s) reading keys that still live in the old index while a pipeline thread completes the migration and drops the old index; loom, preemption bound 1 complete, 2 to the wall cap; small-index build). At most 6 reindex-batch events per history. 'Each live key exactly once across index files' needs the file parser (C14, not built).",
+   "Bounds per scenario (quick: one commit after the fill; thorough: up to three, growth+crash with a following commit, power loss). Since round 5 also: a key replaced while its page of the new index is full (found D21), a growth in four batches with commits / reopen between the batches. `./check C09` runs two parts side by side: the stepping part (evidence C09.json) and the threaded part (evidence C09-loom.json: growth in progress, reader thread(s) reading keys that still live in the old index while a pipeline thread completes the migration and drops the old index; loom, preemption bound 1 complete, 2 to the wall cap; small-index build). At most 6 reindex-batch events per history. 'Each live key exactly once across index files' needs the file parser (C14, not built).",
    "DESIGN.md §4 C09"),
  "C17": ("admin", "exploration",
    "exhaustive finite sweeps: all 384 option combinations x 3 column positions through the metadata round trip; all layouts x administration calls x {clean, unreplayed logs}; all single-field option mismatches and column-count mismatches",
